@@ -109,6 +109,11 @@ class StandardObserver:
             "fin": bool(ns.finalised),
             "train": int(getattr(ns._flow_proposal, "training_count", 0)),
             "nckpt": len(ns.history["checkpoint_iterations"]) if ns.history else 0,
+            "last_train": int(ns.last_updated) if ns.history else 0,
+            "n_hist": len(ns.history["iterations"]) if ns.history else 0,
+            "cooldown": int(ns.cooldown), "train_on_empty": bool(ns.train_on_empty),
+            "max_uninformed": int(min(ns.maximum_uninformed, 2 ** 30)),
+            "poolsize": int(getattr(ns._flow_proposal, "poolsize", 0) or 0),
             "phase": ("none" if getattr(ns, "proposal", None) is None else
                       "uninformed" if ns.proposal is ns._uninformed_proposal else "flow"),
         }
